@@ -11,7 +11,8 @@ for name in sorted(os.listdir(root)):
         continue
     m = json.load(open(os.path.join(d, "meta.json")))
     r = res.get(name, {})
-    caught = ("%s: yes (%d violations)" % (m["property"], r.get("violations", 0))) if r.get("caught") else ("%s: no" % m["property"] if r else "not swept")
+    by = m.get("caught_by", m["property"])
+    caught = ("%s: yes (%d violations)" % (by, r.get("violations", 0))) if r.get("caught") else ("%s: no" % by if r else "not swept")
     first = (r.get("first") or [""])[0].replace("what: ", "").replace("|", "/")[:110]
     hist = "; ".join("%s: %s" % (k, v) for k, v in (m.get("checks") or {}).items()).replace("|", "/")
     rows.append("| `%s` | %s | %s | %s | %s | %s |" % (name, m["property"], m.get("needs", "").replace("|", "/")[:160], caught, first, hist[:260]))
